@@ -9,8 +9,9 @@ THEOREMS = [
     'Tbox.C08.C08_cab_freelist', 'Tbox.C08.C08_cab_alloc_never_throws', 'Tbox.C08.C08_cab_lookup',
     'Tbox.C08.C08_cab_stale_forever', 'Tbox.C08.C08_cab_fresh_token', 'Tbox.C08.C08_cab_distinct',
     'Tbox.C08.C08_cab_size', 'Tbox.C08.C08_cab_foreach_effect', 'Tbox.C08.C08_cab_foreach_remove', 'Tbox.C08.C08_spec_dead_forever', 'Tbox.C08.C08_cab_lookup_counterexample', 'Tbox.C08.C08_cab_wrap_counterexample',
-    'Tbox.C08.C08_pool_no_alias', 'Tbox.C08.C08_pool_ctor_dtor', 'Tbox.C08.C08_pool_keep',
+    'Tbox.C08.C08_pool_no_alias', 'Tbox.C08.C08_pool_ctor_dtor', 'Tbox.C08.C08_pool_keep', 'Tbox.C08.C08_pool_stat',
     'Tbox.C08.C08_fd_refcount', 'Tbox.C08.C08_fd_close_once',
+    'Tbox.C08.C08_lt_no_use_after_free', 'Tbox.C08.C08_lt_alive', 'Tbox.C08.C08_lt_free_once',
 ]
 SOURCES = ['modules/util/fd.cpp'] + vlib.BASE_SOURCES
 FLAVOUR = 'asan'
@@ -18,20 +19,21 @@ BATCH = 200
 SHRINK_TESTS = 200
 MAX_REPORT = 3
 TRUSTED = [
-    'model lean/TboxModel/C08/Model.lean is hand-written from cabinet.hpp, cabinet_token.h, object_pool.hpp, fd.{h,cpp}; tied by differential runs',
+    'model lean/TboxModel/C08/Model.lean is hand-written from cabinet.hpp, cabinet_token.h, object_pool.hpp, fd.{h,cpp}, lifetime_tag.hpp; tied by differential runs',
     'Cabinet cell union {obj_ptr,next_free} is one word in the model; objects are numbers (0 = nullptr)',
     'ObjectPool: the intrusive Block::next chain is abstracted to a list of block identities; malloc is a source of fresh identities; '
     'use-after-free of real storage is observed on the implementation side only (ASan + the probe type registering its addresses)',
     'Fd: the kernel gives every open a descriptor that is not open at that moment (modelled as a fresh number); Detail* is an index into a heap list',
-    'lifetime_tag.hpp (anchor) is not modelled: none of the three statements of the property concerns it',
+    'LifetimeTag: Detail* is an index into a heap list; a deleted record is recognised on the implementation side by ASan poisoning (quarantine)',
 ]
-ASSUMPTIONS = ['fewer than 2^64-1 allocations on one Cabinet (id wrap-around excluded, stated as a hypothesis of the cabinet theorems)',
+ASSUMPTIONS = ['fewer than 2^64-1 allocations on one Cabinet (id wrap-around excluded: hypothesis `wrapped = false` of the cabinet theorems)',
                'ObjectPool::free is only called with live objects of the same pool (API contract)',
-               'malloc does not fail; no Cabinet::alloc/clear from inside a foreach callback (iterator invalidation, documented contract: only removal is allowed)']
+               'malloc does not fail', 'ObjectPool::free of a pointer twice / of a foreign pointer is outside the contract and not modelled',
+               'a foreach callback that allocates on every invocation is bounded by the initial cell count (code after patches/C08-02)']
 RULE = ('op histories over one Cabinet<int> (tokens retained for the whole history and re-queried with `scan`), one ObjectPool<Probe> '
-        'with 16 user slots and retention limits {0,1,2,3,5,16,max}, and 8 Fd handles on real descriptors dup()ed from a pipe; '
+        'with 16 user slots and retention limits {0,1,2,3,5,16,max}, 8 Fd handles on real descriptors dup()ed from a pipe, and 4 LifetimeTag + 6 Watcher slots; '
         'non-trivial = the model run queries a stale token whose cell has been reused, or removes during foreach, or reuses a parked '
-        'pool block after a release, or closes a descriptor through the last of several copies; distinct = distinct op text')
+        'pool block after a release, or closes a descriptor through the last of several copies, or lets watchers outlive their tag / frees a tag record through its last watcher; distinct = distinct op text')
 
 
 # ---------------------------------------------------------------------------------- differ
@@ -109,14 +111,34 @@ class CabGen:
         elif x < 0.87:
             self.ops.append('cab size')
         elif x < 0.90:
-            # iterate with removal: free the visited entry itself, a later one, an earlier one, a stale one
-            k = r.randrange(0, 6); items = []
+            # iterate with calls from inside the callback: free the visited entry itself, a later one, an
+            # earlier one, a stale one; alloc (reusing a freed cell or growing the vector, possibly
+            # past its capacity), update, clear
+            k = r.randrange(0, 6); items = []; cleared = False; sure = 0
+            had_live = len(self.live) > 0
+            mode = r.random()
             for _ in range(k):
-                items.append('%d:%d' % (r.randrange(0, max(1, min(len(self.live) + 1, 12))), self.any_tok()))
+                inv = r.randrange(0, max(1, min(len(self.live) + 1, 12)))
+                y = r.random()
+                if mode < 0.55 or y < 0.5:
+                    i = self.any_tok(); items.append('%d:%d' % (inv, i))
+                    if i in self.live: self.live.remove(i)   # approximately
+                elif y < 0.8:
+                    for _ in range(r.choice([1, 1, 2, 9, 40]) if mode > 0.9 else 1):
+                        items.append('%d:a%d' % (inv, r.randrange(1, 1000)))
+                        if inv == 0 and had_live: sure += 1
+                elif y < 0.93:
+                    items.append('%d:u%d.%d' % (inv, self.any_tok(), r.randrange(1000)))
+                else:
+                    items.append('%d:c' % inv); cleared = True
             self.ops.append('cab each %s' % (','.join(items) or '-'))
-            for it in items:
-                i = int(it.split(':')[1])
-                if i in self.live: self.live.remove(i)   # approximately
+            if cleared: self.live = []
+            # allocs of the first invocation certainly ran (if anything was live): their tokens are
+            # appended to the issued list; later invocations may not happen, so those tokens are only
+            # reached through `scan` (an index that is not issued yet is answered bad-op by both sides)
+            for _ in range(sure):
+                if not cleared: self.live.append(self.n)
+                self.n += 1
         elif x < 0.915:
             self.ops.append('cab clear'); self.live = []
         elif x < 0.93:
@@ -149,8 +171,11 @@ def gen_pool(rng, nops):
             ops.append('pool free %d' % h); live.discard(h)
         elif x < 0.96:
             ops.append('pool stat')
-        else:
+        elif x < 0.985:
             ops.append('pool new %s' % rng.choice(['0', '1', '2', '3', '5', '16', 'max'])); live = set()
+        else:
+            # the pool dies while objects are live: no destructor runs, their storage is left alone
+            ops.append('pool drop %s' % rng.choice(['0', '1', '2', '3', '5', '16', 'max'])); live = set()
     return ops
 
 
@@ -182,8 +207,31 @@ def gen_fd(rng, nops):
     return ops
 
 
+def gen_lt(rng, nops):
+    ops = []
+    nt = rng.choice([1, 2, 4]); nw = rng.choice([2, 3, 6])
+    for _ in range(nops):
+        i = rng.randrange(nt); j = rng.randrange(nt); a = rng.randrange(nw); b = rng.randrange(nw); x = rng.random()
+        if x < 0.12: ops.append('lt tnew %d' % i)
+        elif x < 0.22: ops.append('lt tdel %d' % i)
+        elif x < 0.27 and i != j: ops.append('lt %s %d %d' % (rng.choice(['tcpc', 'tmvc']), i, j))
+        elif x < 0.30: ops.append('lt %s %d %d' % (rng.choice(['tcpa', 'tmva']), i, j))
+        elif x < 0.46: ops.append('lt %s %d %d' % (rng.choice(['wtag', 'wset', 'wget']), a, i))
+        elif x < 0.56 and a != b: ops.append('lt wcpc %d %d' % (a, b))
+        elif x < 0.64 and a != b: ops.append('lt wmvc %d %d' % (a, b))
+        elif x < 0.74: ops.append('lt wcpa %d %d' % (a, b))
+        elif x < 0.82: ops.append('lt wmva %d %d' % (a, b))
+        elif x < 0.87: ops.append('lt wswap %d %d' % (a, b))
+        elif x < 0.94: ops.append('lt wreset %d' % a)
+        else: ops.append('lt wnew %d' % a)
+    # both destruction orders at the end: tags first or watchers first
+    order = [('lt tdel %d' % k) for k in range(nt)], [('lt wnew %d' % k) for k in range(nw)]
+    if rng.random() < 0.5: order = order[::-1]
+    return ops + order[0] + order[1]
+
+
 def gen_mixed(rng, nops):
-    parts = [gen_cab(rng, nops), gen_pool(rng, nops), gen_fd(rng, nops)]
+    parts = [gen_cab(rng, nops), gen_pool(rng, nops), gen_fd(rng, nops), gen_lt(rng, nops)]
     out = []
     while any(parts):
         p = rng.choice([q for q in parts if q])
@@ -192,9 +240,9 @@ def gen_mixed(rng, nops):
 
 
 MALFORMED = ['cab', 'cab alloc', 'cab alloc 1000', 'cab alloc x', 'cab at 0', 'cab free 5', 'cab each 0:0', 'cab frob', 'cab atraw 1',
-             'pool alloc 16 1', 'pool alloc 0', 'pool free 99', 'pool new -1', 'pool new', 'fd open 8 fn', 'fd open 0 xx', 'fd cpc 1 1',
-             'fd mvc 2 2', 'fd swap 0', 'fd close 9', 'frob 1', 'cab alloc 5', 'cab each 0:0,', 'cab each 0:1', 'cab each 0;0', 'cab each 0:0',
-             'cab upd 0 1000', 'cab at 00', 'cab at 1', 'cab clear now', 'fd', 'pool',
+             'pool alloc 16 1', 'pool alloc 0', 'pool free 99', 'pool new -1', 'pool new', 'pool drop', 'pool drop x', 'fd open 8 fn', 'fd open 0 xx', 'fd cpc 1 1',
+             'fd mvc 2 2', 'fd swap 0', 'fd close 9', 'frob 1', 'cab alloc 5', 'cab each 0:0,', 'cab each 0:1', 'cab each 0;0', 'cab each 0:0', 'cab each 0:a', 'cab each 0:a1000', 'cab each 0:u0', 'cab each 0:u0.1.2', 'cab each 0:cc', 'cab each 0:u9.1',
+             'cab upd 0 1000', 'cab at 00', 'cab at 1', 'cab clear now', 'fd', 'pool', 'lt', 'lt tnew 4', 'lt wnew 6', 'lt wcpc 1 1', 'lt tcpc 0 0', 'lt wtag 0', 'lt frob 0', 'lt wtag 6 0',
              'cab alloc 1_0', 'cab alloc 000000000000000001', 'cab alloc 00000000000001', 'cab alloc +1', 'pool new 1_0', 'cab at 0_0']
 
 
@@ -204,13 +252,20 @@ def gen(rng, tier):
     # directed: slot reuse with retained tokens; removal of self / later / earlier entry during foreach
     yield ['cab alloc 1', 'cab alloc 2', 'cab alloc 3', 'cab free 1', 'cab free 0', 'cab alloc 4', 'cab alloc 5', 'cab alloc 6',
            'cab scan', 'cab at 1', 'cab upd 0 9', 'cab free 0', 'cab size', 'cab atraw 0 0', 'cab atraw 4 0', 'cab atraw 4 3999999999']
+    yield ['cab alloc 1', 'cab alloc 2', 'cab alloc 3', 'cab free 1', 'cab each 0:2,0:0,0:a8,0:a9,1:u2.77,2:a5', 'cab scan',
+           'cab each 0:c,0:a5', 'cab scan', 'cab each ' + ','.join('0:a%d' % (10 + i) for i in range(40)), 'cab scan', 'cab each 1:c', 'cab size']
     yield ['cab alloc 1', 'cab alloc 2', 'cab alloc 3', 'cab alloc 4', 'cab each 0:0,1:2,3:1', 'cab scan', 'cab alloc 7', 'cab alloc 8',
            'cab alloc 9', 'cab scan', 'cab each 0:5,0:4,0:6', 'cab size']
     yield ['cab clear', 'cab alloc 0', 'cab at 0', 'cab upd 0 0', 'cab upd 0 5', 'cab at 0', 'cab free 0', 'cab free 0', 'cab clear', 'cab size']
     yield ['pool new 1', 'pool alloc 0 10', 'pool alloc 1 11', 'pool free 0', 'pool free 1', 'pool alloc 2 12', 'pool alloc 3 13',
-           'pool alloc 3 14', 'pool free 5', 'pool stat', 'pool new 0', 'pool alloc 0 1', 'pool free 0', 'pool alloc 0 2']
+           'pool alloc 3 14', 'pool free 5', 'pool stat', 'pool new 0', 'pool alloc 0 1', 'pool free 0', 'pool alloc 0 2',
+           'pool alloc 1 3', 'pool drop 2', 'pool alloc 0 4', 'pool alloc 1 5', 'pool free 0', 'pool free 1', 'pool alloc 2 6', 'pool stat', 'pool drop max']
     yield ['fd open 0 fn', 'fd cpa 1 0', 'fd cpa 1 0', 'fd cpa 0 0', 'fd mva 0 0', 'fd cpc 2 1', 'fd reset 0', 'fd close 1', 'fd close 2',
            'fd reset 1', 'fd reset 2', 'fd open 3 raw', 'fd mvc 4 3', 'fd swap 4 4', 'fd swap 3 4', 'fd mva 3 3', 'fd new 3', 'fd new 4']
+    # LifetimeTag: tag dies first / watchers die first; copies of null watchers; tag copies get their own record
+    yield ['lt tnew 0', 'lt wtag 0 0', 'lt wcpc 1 0', 'lt tdel 0', 'lt wreset 0', 'lt wreset 1', 'lt tnew 0', 'lt wset 0 0', 'lt wnew 0', 'lt tdel 0']
+    yield ['lt wcpc 1 0', 'lt wcpa 2 3', 'lt wcpa 2 2', 'lt tnew 0', 'lt wget 0 0', 'lt wmvc 1 0', 'lt wcpc 2 0', 'lt wcpa 3 0', 'lt wmva 4 0',
+           'lt tcpc 1 0', 'lt tmvc 2 0', 'lt wset 5 1', 'lt tcpa 1 0', 'lt tmva 0 2', 'lt tdel 0', 'lt tdel 1', 'lt wtag 0 3', 'lt tcpc 3 0', 'lt tdel 2']
     n = 4 if quick else 24
     for _ in range(120 * n):
         yield gen_cab(rng, rng.choice([10, 30, 80, 200, 400]))
@@ -218,6 +273,8 @@ def gen(rng, tier):
         yield gen_pool(rng, rng.choice([10, 40, 150]))
     for _ in range(80 * n):
         yield gen_fd(rng, rng.choice([10, 40, 120, 300]))
+    for _ in range(60 * n):
+        yield gen_lt(rng, rng.choice([8, 30, 100, 300]))
     for _ in range(20 * n):
         yield gen_mixed(rng, rng.choice([20, 100]))
     # long histories: heavy slot reuse, thousands of stale tokens retained and re-queried
@@ -235,9 +292,13 @@ def gen(rng, tier):
         for L in range(1, 6):
             for seq in itertools.product(alpha, repeat=L):
                 yield list(seq) + ['fd new 0', 'fd new 1']
+        alpha = ['lt tnew 0', 'lt tdel 0', 'lt wset 0 0', 'lt wcpa 1 0', 'lt wmva 0 1', 'lt wreset 0', 'lt wcpc 1 0', 'lt tcpc 1 0']
+        for L in range(1, 5):
+            for seq in itertools.product(alpha, repeat=L):
+                yield list(seq) + rng.choice([['lt tdel 0', 'lt tdel 1', 'lt wnew 0', 'lt wnew 1'], ['lt wnew 0', 'lt wnew 1', 'lt tdel 0', 'lt tdel 1']])
 
 
-KEY_TAGS = ('tok-stale-reused', 'each-removed', 'pool-reuse', 'rel-last-closes', 'close-shared')
+KEY_TAGS = ('pool-drop-live', 'w-last-frees', 't-outlived-by-watchers', 'tok-stale-reused', 'each-removed', 'each-cb-grew', 'pool-reuse', 'rel-last-closes', 'close-shared')
 
 
 def nontrivial(ops, model_lines):
@@ -253,8 +314,9 @@ def nontrivial(ops, model_lines):
 
 LEVEL_TEXT = ('Lean 4 theorems over hand-written models of Cabinet (intrusive free list as coded), ObjectPool and Fd: free-list shape, '
               'token lookup = finite map of issued tokens with dead tokens dead for ever (histories including clear), distinct ids, size, '
-              'foreach with removal; pool blocks never handed out while live, ctor/dtor balance, retention limit; Fd reference counts and '
-              'close-exactly-once; models tied to the headers and fd.cpp on every run by differential execution (ASan+UBSan build of the working tree)')
+              'foreach with free/alloc/update/clear from inside callbacks; pool blocks never handed out while live, ctor/dtor balance, statistics, retention limit, '
+              'destruction with live objects; Fd reference counts and close-exactly-once; LifetimeTag/Watcher: alive iff the tag exists, record deleted '
+              'exactly once after tag and last watcher, no access to a deleted record in any destruction order; models tied to the headers and fd.cpp on every run by differential execution (ASan+UBSan build of the working tree)')
 LEVEL_NOTE = ('trusted: Lean kernel, hand-written models + differential tie (coverage bounded by the generator, measured in evidence); '
               'real-memory use-after-free is observed by ASan on the implementation side only')
 TECHNIQUE = 'Lean 4 invariant/refinement proofs over executable models + model/implementation correspondence check'
